@@ -14,9 +14,13 @@ from ..common import Report  # noqa: E402
 PROP = "C12"
 
 FLAGGED = asm(("GLOBAL", ("vp_sink", "hit")), sbu("probe"), "TUPLE1", "REDUCE", "STOP")
+# resolved only, never called: the static analysis rates it LIKELY_SAFE; the ML allowlist does not list it.  Under
+# [activate, arm] a pickle.load goes through the checked loader and then through the ML-hooked pickle.loads: both
+# protections in force must hold
+BENIGN_UNLISTED = asm(("GLOBAL", ("decimal", "Decimal")), "STOP")
 EXTRA = ("vp_sink.other",)
 
-OPS = ("arm", "activate()", "activate(x)", "remove", "construct", "enter", "leave", "leave_exc", "probe_load", "probe_loads")
+OPS = ("arm", "activate()", "activate(x)", "remove", "construct", "enter", "leave", "leave_exc", "probe_load", "probe_loads", "probe_load_benign")
 SLOTS = ("load", "loads", "cload", "cloads")
 
 
@@ -175,10 +179,12 @@ class Lifecycle(e2.System):
             obs = ("exit-returned", bool(ret))
             b = stack[-1]
             stack = stack[:-1]
-        elif op in ("probe_load", "probe_loads"):
+        elif op in ("probe_load", "probe_loads", "probe_load_benign"):
             vp_sink.reset()
             try:
-                if op == "probe_load":
+                if op == "probe_load_benign":
+                    pickle.load(io.BytesIO(BENIGN_UNLISTED))
+                elif op == "probe_load":
                     pickle.load(io.BytesIO(FLAGGED))
                 else:
                     pickle.loads(FLAGGED)
@@ -202,7 +208,15 @@ class Lifecycle(e2.System):
                 probs.append((f"C12|binding|{op}|{slot}", f"after {op}: pickle binding {slot} is {got}, lifecycle model says {want}"))
         if obs and obs[0] == "exit-returned" and obs[1]:
             probs.append((f"C12|exit-swallows|{op}", "__exit__ returned a truthy value (would swallow the exception)"))
-        if obs and obs[0] == "probe":
+        if obs and obs[0] == "probe" and op == "probe_load_benign":
+            # CHECKED hands the analysed bytes to whatever pickle.loads is at that moment
+            eff = b[1] if b[0] == "CHECKED" else b[0]
+            want = "UnsafeFileError" if eff.startswith("ML") else "returned"
+            if obs[1] != want:
+                probs.append((f"C12|benign-unlisted|{b[0].split('(')[0]}+{b[1].split('(')[0]}",
+                              f"pickle.load of a pickle that only resolves decimal.Decimal, with load={b[0]} and loads={b[1]}: outcome {obs[1]}, "
+                              f"expected {want}"))
+        elif obs and obs[0] == "probe":
             slot = 0 if op == "probe_load" else 1
             sym = b[slot]
             protected = sym != "ORIG" and not (sym == "CHECKED" and False)
